@@ -1,7 +1,8 @@
 (* C05 — Passive-state probability interfaces agree with a unitary dilation.
    Only statements closed by [exact]; proofs live in C05/. *)
 From Coq Require Import ZArith QArith List Permutation Ring NArith.
-From PV Require Import Comb.FockModel C05.PassiveModel C05.BookProofs C05.RyserProofs C05.MixtureProofs.
+From PV Require Import Comb.FockModel C05.PassiveModel C05.BookProofs C05.RyserProofs C05.MixtureProofs
+  C05.TierBProofs C05.RyserGeneral C05.RyserLink.
 Import ListNotations.
 
 (* ---- post-selection bookkeeping (state.py), for every number of modes and mode set ---- *)
@@ -93,6 +94,57 @@ Theorem C05_subset_sum_is_sum_over_set_bits : forall (M : list (list Z)) p c r,
   nth r (bits_sum Z 0%Z Z.add M (length M) p c) 0%Z = bit_total (nth r M []) p c.
 Proof. exact bits_sum_is_sum_over_set_bits. Qed.
 Print Assumptions C05_subset_sum_is_sum_over_set_bits.
+
+(* Ryser's formula in finite-difference form (signed sum over all column subsets) equals the
+   permanent by definition: every size, any commutative ring *)
+Theorem C05_ryser_formula_is_permanent :
+  forall (A : Type) (a0 a1 : A) (aadd amul asub : A -> A -> A) (aopp : A -> A),
+  ring_theory a0 a1 aadd amul asub aopp (@eq A) ->
+  forall n (M : list (list A)), length M = n -> Forall (fun r => length r = n) M ->
+  FS A a0 a1 aadd amul asub n 0 M (repeat a0 n) = perm A a0 a1 aadd amul M.
+Proof. exact ryser_formula_is_permanent. Qed.
+Print Assumptions C05_ryser_formula_is_permanent.
+
+(* the loop of probabilities.py -- sign(n - popcount) * product of the row sums read from the
+   table of _precompute_subset_row_sums, subsets 1 .. 2^n - 1 -- equals the permanent by
+   definition, for every square matrix with n >= 1 rows over any commutative ring *)
+Theorem C05_ryser_is_permanent :
+  forall (A : Type) (a0 a1 : A) (aadd amul asub : A -> A -> A) (aopp : A -> A),
+  ring_theory a0 a1 aadd amul asub aopp (@eq A) ->
+  forall M : list (list A), (1 <= length M)%nat -> Forall (fun r => length r = length M) M ->
+  ryser_sum A a0 a1 aadd amul aopp M = perm A a0 a1 aadd amul M.
+Proof. exact ryser_is_permanent. Qed.
+Print Assumptions C05_ryser_is_permanent.
+
+(* the open finding lives on complex transmission entries only: for a REAL transmission
+   matrix (any Gram matrix, input, outcome) the coefficient-extraction formula as coded,
+   B_m = G * outer(v, conj v), equals the repaired one, B_m = G * outer(conj v, v) *)
+Theorem C05_ryser_coded_eq_repaired_on_real : forall N D d G Dg s t,
+  real_matrix (firstn d N) ->
+  ryser_coeff true N D d G Dg s t = ryser_coeff false N D d G Dg s t.
+Proof. exact ryser_coded_eq_repaired_on_real. Qed.
+Print Assumptions C05_ryser_coded_eq_repaired_on_real.
+
+(* two photons, any number of detected + loss modes: the sum over ordered pairs of output
+   rows of |perm|^2 is 2|x|^2|y|^2 + 2|<y,x>|^2; for the columns of an isometry scaled by D it
+   is 2 D^4 (distinct input modes) resp. 4 D^4 (same input mode): with the 1/(s! t!) weights
+   the outcomes carry total probability one *)
+Theorem C05_two_photon_total : forall l : list (Zi * Zi),
+  S2 amp2 l = (2 * S1 nx l * S1 ny l + 2 * zin2 (overlap_xy l))%Z.
+Proof. exact two_photon_total. Qed.
+Print Assumptions C05_two_photon_total.
+
+Theorem C05_two_photon_total_isometry : forall (l : list (Zi * Zi)) (D : Z),
+  S1 nx l = (D * D)%Z -> S1 ny l = (D * D)%Z -> overlap_xy l = zi0 ->
+  S2 amp2 l = (2 * D ^ 4)%Z.
+Proof. exact two_photon_total_isometry. Qed.
+Print Assumptions C05_two_photon_total_isometry.
+
+Theorem C05_two_photon_total_bunched : forall (l : list Zi) (D : Z),
+  S1 nx (map (fun x => (x, x)) l) = (D * D)%Z ->
+  S2 amp2 (map (fun x => (x, x)) l) = (4 * D ^ 4)%Z.
+Proof. exact two_photon_total_bunched. Qed.
+Print Assumptions C05_two_photon_total_bunched.
 
 (* ---- uniform overlap, over any commutative ring: overlap one reproduces indistinguishable
    bosons, overlap zero classical particles.  The premise on Pcl / Pind says that a species
